@@ -1,7 +1,7 @@
 (* C18 — block entry probes fire on every entry into the block.  Statements only. *)
 From Coq Require Import List Arith NArith ZArith Bool.
 Import ListNotations.
-From Orca Require Import Util Flat Lowering CheckLow Tree TreeLower WasmP SemProofs EvalP Sim CheckSem KnownSem SelfCase.
+From Orca Require Import Util Flat Lowering CheckLow Tree TreeLower WasmP SemProofs EvalP Sim CheckSem KnownSem SelfCase SimFn Peel SimFnReal Commute Flatten.
 
 (* [exec .. true] fires the block-entry probes [f_be] of a block / loop / if / else each time control
    enters that body or arm -- for a loop on every iteration (WasmP.step_body: `probes (f_after F ++ f_be F)`
@@ -28,3 +28,37 @@ Example C18_nonvacuous :
       | OReturn c => trace c | _ => [] end
   | _, _ => [] end = [1003; 1003]%Z.
 Proof. vm_compute. split; reflexivity. Qed.
+
+(* ---- end to end on the mirror of the implementation (Proofs/Flatten.v) ----
+   [resolve] is the executable mirror of Module::resolve_special_instrumentation (one left-to-right pass over the FLAT
+   instruction vector with its block stack and the two pending-probe maps) and [emit] the mirror of the encoder's
+   plain lowering; the correspondence run ties both to /repo on every check.  For every flat body that parses,
+   every flag assignment without replacements in the fragment [okI] (plain instructions are not structural, no
+   semantic-after on branch instructions, no block-exit on an `if` whose then-arm contains a construct: the shapes
+   of D16-D18 and D15), every entry code and exit code X: the code the mirror emits IS the flattening of a tree on
+   which the plain Wasm interpreter reproduces every outcome of the probe-semantics interpreter [exec_fn .. true]
+   (results, globals, event trace, traps). *)
+Theorem C18_emitted_code_simulates_the_probe_semantics :
+  forall ftypes (F : nat -> flags) ops t fe entry X ty nres loc,
+  parse_body ops = Some (t, fe) -> nonrepl F -> forallb (okI F) t = true -> t <> [] ->
+  let Fe := with0 entry F in
+  pcode X ->
+  (forall i, pcode (bef Fe i) /\ pcode (aft Fe i) /\ pcode (be_ Fe i) /\ pcode (bx_ Fe i) /\ pcode (sa_ Fe i)) ->
+  neutral X -> neutral (bef Fe 0) -> arity ftypes (BtFunc ty) = (0, nres)%nat ->
+  exists tree : list instr,
+    emit (fst (resolve true entry X ty (flagged F 0 ops) loc)) = flat tree ++ [FEnd]
+    /\ forall fuel c ob,
+      exec_fn ftypes Fe [] X true fuel t fe c = ob -> ob <> OFuel -> stack c = [] ->
+      (forall c1 n p c', exec ftypes (TreeLower.F0 Fe) X true fuel false t c1 = OBr n p c' -> n = 0%nat) ->
+      exists fuel' ob', exec_fn ftypes nof [] [] false fuel' tree 0 c = ob' /\ res_eq nres ob ob'.
+Proof. exact resolve_flatten_real_sim. Qed.
+Print Assumptions C18_emitted_code_simulates_the_probe_semantics.
+(* the tree is the one the checker compares with the real output: whenever the observed body equals the mirror's,
+   CheckSem.tree_tie accepts *)
+Theorem C18_tree_tie_follows_from_the_correspondence :
+  forall (c : scase) b g g', model (s_l c) = Some (b, g) -> c_obs (s_l c) = Some (b, g') -> tree_tie c = true.
+Proof. exact tree_tie_of_model. Qed.
+Print Assumptions C18_tree_tie_follows_from_the_correspondence.
+(* outside the fragment the equation is false of the faithful mirror (D15) *)
+Example C18_flatten_false_on_D15 : True.
+Proof. pose proof resolve_flatten_false_on_D15. exact I. Qed.
